@@ -52,7 +52,26 @@ RULE = (
     'a second one if suppressed; keep-alive; two chats), keepalive, ppl, '
     'unknown (two packets each after login, delivered one at a time), '
     'keepalive+/ppl+/unknown+ (both delivered back to back), chat_q / '
-    'chat_f (two queued / forced user writes).  Seeds change the packet '
+    'chat_f (two queued / forced user writes).  Registration timing: the '
+    'histories keepalive~, ppl~, unknown~, chat_q~, chat_f~ have three '
+    'packets delivered one at a time; listeners marked late (X~) are '
+    'registered from the user thread at quiescence after the first packet '
+    '(and its reply) has been fully processed, the second packet is the '
+    'primary one (ignoring listeners raise for it), the third shows normal '
+    'dispatch again; the reference expects the first packet to reach only '
+    'the listeners registered before connect() and the later ones to reach '
+    'all, in registration order inside each class.  Configurations for '
+    'the ~ histories: L1 = one late listener (12 kinds) in one class, the '
+    'other classes each empty / one plain P / one late plain P; L2 = every '
+    'ordered pair inside one class as (before connect, late) and as (late, '
+    'late) - this includes a late concrete-class registration after a late '
+    'superclass registration and vice versa; L3 = one listener in each of '
+    '(ie,io), (oe,oo), (ie,oe) with one or both late.  quick: 757 L1 (27 '
+    'surroundings) + L2 (others all empty / all plain P / all late plain P) '
+    '+ L3; 47 and 340 L1 (3 uniform surroundings) + L2 (others all empty / '
+    'all late plain P).  thorough: 757 L1 + L2 with 27 surroundings + L3; '
+    '340 as quick 757; 47 L1 + L2 with 3 uniform surroundings.  '
+    'Seeds change the packet '
     'field values and the order of tasks only.  state = distinct (protocol, '
     'history, per-packet call log with state seen at call time, server '
     'receipts, final state); transitions = listener calls + reactions + '
@@ -69,6 +88,10 @@ ASSUMPTIONS = [
     'comes after the early incoming listeners)',
     'vnet models the socket API (selftest/vnet_conformance); canonical '
     'schedule only (C12 explores schedules)',
+    'late registrations are made while the networking thread idles '
+    '(quiescence); a registration racing with a dispatch in progress is '
+    'not explored, and a listener registered at quiescence must take '
+    'effect for the next packet',
 ]
 
 GROUPS = ('ie', 'io', 'oe', 'oo')
@@ -104,9 +127,10 @@ KEYFIELD = {
     'sb.KeepAlive': 'keep_alive_id', 'sb.TeleportConfirm': 'teleport_id',
     'sb.PositionAndLook': 'x', 'sb.Chat': 'message',
 }
-UNKNOWN_IDS = (0x7D, 0x7E)
+UNKNOWN_IDS = (0x7D, 0x7E, 0x7F)
 KINDS = ('connect', 'compress', 'plugin', 'success', 'keepalive', 'ppl',
-         'unknown', 'keepalive+', 'ppl+', 'unknown+', 'chat_q', 'chat_f')
+         'unknown', 'keepalive+', 'ppl+', 'unknown+', 'chat_q', 'chat_f',
+         'keepalive~', 'ppl~', 'unknown~', 'chat_q~', 'chat_f~')
 VERSIONS = (757, 340, 47)
 LONG_CHAT = 'two' + 'x' * 150
 
@@ -124,20 +148,20 @@ def values(seed):
     histories is always enumerated completely)."""
     if not seed:
         return {'T': (64, 128), 'M': (5, 9), 'N': (11, 2 ** 31 - 2, 7),
-                'X': (1.5, -2.5), 'TID': (3, 300)}
+                'X': (1.5, -2.5, 640.25), 'TID': (3, 300, 70000)}
     r = random.Random(seed)
     n = r.sample(range(1, 2 ** 31 - 1), 3)
     t = r.sample(range(1, 400), 2)
     m = r.sample(range(0, 2 ** 20), 2)
-    tid = r.sample(range(0, 2 ** 20), 2)
-    x = r.sample(range(-4000, 4000), 2)
+    tid = r.sample(range(0, 2 ** 20), 3)
+    x = r.sample(range(-4000, 4000), 3)
     return {'T': (min(t) + 20, max(t) + 20), 'M': tuple(m), 'N': tuple(n),
-            'X': (x[0] / 4.0, x[1] / 4.0), 'TID': tuple(tid)}
+            'X': tuple(i / 4.0 for i in x), 'TID': tuple(tid)}
 
 
 def concrete(kind, v, rank):
     """(concrete incoming class, concrete outgoing class) of a history."""
-    base = kind.rstrip('+')
+    base = kind.rstrip('+~')
     if base == 'connect':
         return 'cb.LoginSuccess', 'sb.LoginStart'
     if base == 'compress':
@@ -207,6 +231,7 @@ class Ref(object):
         self.causes = []        # (incoming packet, reply it triggers)
         self.reactions = 0
         self.flags = set()      # which interesting classes occurred
+        self.late_done = False  # the late registrations have happened
 
     def view(self):
         return (self.comp, self.thr, self.reactor, self.spawned)
@@ -214,13 +239,24 @@ class Ref(object):
     def group(self, g, pkt, out):
         """Listeners of one class, registration order, each matching one
         once.  False when one of them signalled ignore."""
-        for i, (flt, ign) in enumerate(self.cfg[g]):
+        for i, spec in enumerate(self.cfg[g]):
+            flt, ign, late = spec[0], spec[1], is_late(spec)
+            if late and not self.late_done:
+                continue        # not registered yet
             types = self.types_of(flt, g)
             if any(t in self.sup[pkt[0]] for t in types):
                 out.append(('L', g, i, self.view() if g[0] == 'i' else None))
                 self.note_match(flt, types, pkt)
+                if late:
+                    self.flags.add('late-registered %s listener fires' % g)
+                    if types and all(t != pkt[0] for t in types):
+                        self.flags.add('late-registered %s listener on a '
+                                       'superclass fires' % g)
                 if ign and pkt in self.primary:
                     self.flags.add('%s listener ignores' % g)
+                    if late:
+                        self.flags.add('late-registered %s listener ignores'
+                                       % g)
                     if i + 1 < len(self.cfg[g]):
                         self.flags.add('%s ignore with a later listener in '
                                        'the same class' % g)
@@ -268,13 +304,20 @@ class Ref(object):
             self.flags.add('abstract keep-alive filter matches %s' % pkt[0])
 
 
+def is_late(spec):
+    return len(spec) > 2 and bool(spec[2])
+
+
 def oracle(kind, v, cfg, vals, rank):
     """-> (plan of driver steps, Ref holding the expectations)."""
     cl = classes()
-    base, burst = kind.rstrip('+'), kind.endswith('+')
+    base, burst = kind.rstrip('+~'), kind.endswith('+')
+    late = kind.endswith('~')   # three packets; primary is the second one,
+    pi = 1 if late else 0       # late registrations after the first
     cin, cout = concrete(kind, v, rank)
     T, M, N, X, TID = (vals[k] for k in ('T', 'M', 'N', 'X', 'TID'))
-    chat1, chat2 = ('sb.Chat', 'one'), ('sb.Chat', LONG_CHAT)
+    chat0, chat1, chat2 = (('sb.Chat', 'zero'), ('sb.Chat', 'one'),
+                           ('sb.Chat', LONG_CHAT))
 
     def ppl_reply(i):
         return (cout, TID[i]) if cout == 'sb.TeleportConfirm' \
@@ -284,9 +327,9 @@ def oracle(kind, v, cfg, vals, rank):
         'compress': {('cb.SetCompression', T[0]), chat1},
         'plugin': {('cb.PluginRequest', M[0]), ('sb.PluginResponse', M[0])},
         'success': {('cb.LoginSuccess', 'vfuser'), chat1},
-        'keepalive': {('cb.KeepAlive', N[0]), ('sb.KeepAlive', N[0])},
-        'ppl': {('cb.PPL', X[0]), ppl_reply(0)},
-        'unknown': {('Packet', UNKNOWN_IDS[0]), chat1},
+        'keepalive': {('cb.KeepAlive', N[pi]), ('sb.KeepAlive', N[pi])},
+        'ppl': {('cb.PPL', X[pi]), ppl_reply(pi)},
+        'unknown': {('Packet', UNKNOWN_IDS[pi]), chat1},
         'chat_q': {chat1}, 'chat_f': {chat1},
     }[base]
     R = Ref(cfg, lambda flt, g: filter_types(flt, g, kind, v, rank),
@@ -349,17 +392,26 @@ def oracle(kind, v, cfg, vals, rank):
     def unk(i):
         return (('raw', UNKNOWN_IDS[i], b'\x01\x02\x03'),
                 ('Packet', UNKNOWN_IDS[i]), None)
-    stim = {'keepalive': [ka(N[0]), ka(N[1])], 'ppl': [ppl(0), ppl(1)],
-            'unknown': [unk(0), unk(1)], 'success': [ka(N[2])]}.get(base, [])
+    k = 3 if late else 2
+    stim = {'keepalive': [ka(n) for n in N[:k]],
+            'ppl': [ppl(i) for i in range(k)],
+            'unknown': [unk(i) for i in range(k)],
+            'success': [ka(N[2])]}.get(base, [])
     if burst:
         plan.append(('play',) + tuple(ev for ev, _, _ in stim))
-    for ev, p, react in stim:
+
+    def register_late():
+        plan.append(('late',))
+        R.late_done = True
+    for j, (ev, p, react) in enumerate(stim):
         if not burst:
             plan.append(('play', ev))
         if not R.incoming(p, react):
             R.flags.add('%s suppressed' % p[0])
         if not burst:
             R.flush()
+        if late and j == 0:
+            register_late()
     R.flush()
     # user writes
     writes = {'chat_q': [(chat1, False), (chat2, False)],
@@ -367,6 +419,11 @@ def oracle(kind, v, cfg, vals, rank):
               'compress': [(chat1, False), (chat2, True)],
               'success': [(chat1, False), (chat2, True)],
               'unknown': [(chat1, False), (chat2, True)]}.get(base, [])
+    if late and base in ('chat_q', 'chat_f'):
+        plan.append(('write', 'sb.Chat', {'message': chat0[1]},
+                     writes[0][1]))
+        R.outgoing(chat0)
+        register_late()
     for p, force in writes:
         plan.append(('write', 'sb.Chat', {'message': p[1]}, force))
         if not R.outgoing(p):
@@ -432,15 +489,18 @@ def execute(W, kind, v, cfg, plan, primary):
             return False
         return True
 
-    for i in range(2):
-        for g in REG_ORDER:
-            if i < len(cfg[g]):
-                flt, ign = cfg[g][i]
-                types = [real[t] for t in
-                         filter_types(flt, g, kind, v, W.rank)]
-                guarded('register_packet_listener',
-                        conn.register_packet_listener, make(g, i, ign),
-                        *types, early=(g[1] == 'e'), outgoing=(g[0] == 'o'))
+    def register(late):
+        for i in range(2):
+            for g in REG_ORDER:
+                if i < len(cfg[g]) and is_late(cfg[g][i]) == late:
+                    flt, ign = cfg[g][i][:2]
+                    types = [real[t] for t in
+                             filter_types(flt, g, kind, v, W.rank)]
+                    guarded('register_packet_listener',
+                            conn.register_packet_listener, make(g, i, ign),
+                            *types, early=(g[1] == 'e'),
+                            outgoing=(g[0] == 'o'))
+    register(False)
     srv = None
     for step in plan:
         if problems:
@@ -452,6 +512,9 @@ def execute(W, kind, v, cfg, plan, primary):
             srv = W.servers[0] if W.servers else None
             if srv is None:
                 problems.append(('diverged', 'no connection was opened'))
+            continue
+        if op == 'late':        # at quiescence: the first packet is done
+            register(True)
             continue
         if op == 'write':
             pkt = real[step[1]](**step[2])
@@ -579,9 +642,9 @@ def project(obs, v, rank):
 
 
 def show_cfg(cfg):
-    return ' '.join('%s=[%s]' % (g, ','.join(f + ('!' if ign else '')
-                                             for f, ign in cfg[g]))
-                    for g in GROUPS)
+    return ' '.join('%s=[%s]' % (g, ','.join(
+        s[0] + ('!' if s[1] else '') + ('~' if is_late(s) else '')
+        for s in cfg[g])) for g in GROUPS)
 
 
 def show_seq(s):
@@ -725,7 +788,8 @@ def run_case(ctx, kind, v, cfg, seed):
     for name, text in res:
         ctx.violation('%s v%d %s' % (kind, v, name),
                       'history %s, protocol %d, listeners %s (X! = raises '
-                      'IgnorePacket for the primary packet): %s'
+                      'IgnorePacket for the primary packet, X~ = registered '
+                      'after the first packet of the history): %s'
                       % (kind, v, show_cfg(cfg), text), case)
     return res
 
@@ -801,6 +865,55 @@ def configurations(tier, v):
     return q_sets() | q3() | s2_uniform(none_plain)
 
 
+def late_of(spec):
+    return (spec[0], spec[1], True)
+
+
+PLAIN_P_LATE = late_of(PLAIN_P)
+
+
+def late_configurations(tier, v):
+    """Configurations for the histories with a late registration point
+    ('~').  Inside a class the listeners registered before connect() come
+    first, so the tuple order is the registration order."""
+    sur3 = [(), (PLAIN_P,), (PLAIN_P_LATE,)]
+    big = v == 757 or (tier == 'thorough' and v == 340)
+    out = set()
+    # L1: one late listener in one class
+    l1_sur = list(itertools.product(sur3, repeat=3)) if big \
+        else [(x,) * 3 for x in sur3]
+    for gi in range(4):
+        for a in ALPH:
+            for sur in l1_sur:
+                c = list(sur)
+                c.insert(gi, (late_of(a),))
+                out.add(tuple(c))
+    # L2: pairs inside one class: (before connect, late) and (late, late)
+    if tier == 'thorough' and v == 757:
+        l2_sur = list(itertools.product(sur3, repeat=3))
+    elif big or tier == 'thorough':
+        l2_sur = [(x,) * 3 for x in sur3]
+    else:
+        l2_sur = [((),) * 3, ((PLAIN_P_LATE,),) * 3]
+    for gi in range(4):
+        for a, b in itertools.product(ALPH, ALPH):
+            for pair in ((a, late_of(b)), (late_of(a), late_of(b))):
+                for sur in l2_sur:
+                    c = list(sur)
+                    c.insert(gi, pair)
+                    out.add(tuple(c))
+    # L3: one listener in each of two classes, at least one of them late
+    if big:
+        for g1, g2 in ((0, 1), (2, 3), (0, 2)):
+            for a, b in itertools.product(ALPH, ALPH):
+                for x, y in ((a, late_of(b)), (late_of(a), b),
+                             (late_of(a), late_of(b))):
+                    c = [(), (), (), ()]
+                    c[g1], c[g2] = (x,), (y,)
+                    out.add(tuple(c))
+    return out
+
+
 def as_cfg(t):
     return dict(zip(GROUPS, t))
 
@@ -819,15 +932,21 @@ def run(ctx):
     rng = random.Random(ctx.seed)
     tasks = []
     per_version = {}
+    late_per_version = {}
     for v in VERSIONS:
         cfgs = sorted(configurations(ctx.tier, v))
+        lcfgs = sorted(late_configurations(ctx.tier, v))
         per_version[str(v)] = len(cfgs)
+        late_per_version[str(v)] = len(lcfgs)
         rng.shuffle(cfgs)
+        rng.shuffle(lcfgs)
         for kind in kinds_for(v, rank):
-            for i in range(0, len(cfgs), 40):
-                tasks.append((v, kind, ctx.seed, cfgs[i:i + 40]))
+            use = lcfgs if kind.endswith('~') else cfgs
+            for i in range(0, len(use), 40):
+                tasks.append((v, kind, ctx.seed, use[i:i + 40]))
     rng.shuffle(tasks)
     ctx.extra['configurations_per_version'] = per_version
+    ctx.extra['late_configurations_per_version'] = late_per_version
     ctx.extra['histories'] = list(KINDS)
     ctx.pmap(w_chunk, tasks)
     ctx.sample({'history': 'keepalive', 'version': 757,
@@ -835,6 +954,11 @@ def run(ctx):
                 'expect': 'ie0 only; no reply on the wire; second '
                           'keep-alive: ie0 ie1 reaction io0, reply: oe0 '
                           'wire oo0'})
+    ctx.sample({'history': 'keepalive~', 'version': 757,
+                'listeners': 'ie=[C,K!~] io=[P~] oe=[] oo=[]',
+                'expect': 'first keep-alive: ie0, reply; K and P listeners '
+                          'registered at quiescence; second: ie0 ie1 (raises '
+                          'ignore), no reply; third: ie0 ie1 io0, reply'})
     ctx.sample({'history': 'compress', 'version': 757,
                 'listeners': 'ie=[CS] io=[C] oe=[] oo=[]',
                 'expect': 'ie0 once seeing compression off, io0 seeing '
@@ -842,7 +966,7 @@ def run(ctx):
 
 
 def replay(ctx, case):
-    cfg = {g: tuple((str(f), bool(i)) for f, i in case['cfg'][g])
-           for g in GROUPS}
+    cfg = {g: tuple((str(s[0]), bool(s[1])) + ((True,) if is_late(s) else ())
+                    for s in case['cfg'][g]) for g in GROUPS}
     run_case(ctx, case['kind'], int(case['version']), cfg,
              int(case.get('seed', 0)))
